@@ -58,4 +58,4 @@ def check_case(ctx, case):
 
 def run(ctx):
     for _ in range(ctx.budget(1500, 60000)):
-        check_case(ctx, gen_case(ctx.rng))
+        ctx.guard(check_case, gen_case(ctx.rng))
